@@ -9,7 +9,8 @@ Record case := mkCase {
   c_after : list (list Z);                 (* backing arrays (content ++ spare) after the call *)
   c_load : Z;                              (* 0 = NewLoader succeeded *)
   c_tags : list Z;                         (* Loader.Tables() *)
-  c_raw : list (Z * list Z)                (* per tag of c_tags: status (0 ok), bytes *)
+  c_raw : list (Z * list Z);               (* per tag of c_tags: RawTable status (0 ok), bytes *)
+  c_raw2 : list (Z * list Z)               (* the same through RawTableTo with a buffer reused from table to table *)
 }.
 
 Definition in_tables (c : case) : list table := map (fun t => mkTable (fst (fst t)) (snd (fst t))) (c_tables c).
@@ -41,6 +42,7 @@ Definition corr_ok (c : case) : bool :=
      | Ok ld => (c_load c =? 0)
                 && list_Z_eqb (loader_tables ld) (c_tags c)
                 && raw_eqb (map (fun tg => res_obs (raw_table (c_out c) ld tg)) (c_tags c)) (c_raw c)
+                && raw_eqb (map (fun tg => res_obs (raw_table (c_out c) ld tg)) (c_tags c)) (c_raw2 c)
      | _ => negb (c_load c =? 0)
      end.
 
@@ -58,6 +60,7 @@ Definition prop_ok (c : case) : bool :=
     && (c_load c =? 0)
     && list_Z_eqb (c_tags c) (map fst (in_pairs c))
     && raw_eqb (c_raw c) (map (fun p => (0, snd p)) (in_pairs c))
+    && raw_eqb (c_raw2 c) (map (fun p => (0, snd p)) (in_pairs c))
     && lists_eqb (c_after c) (in_backings c) ).
 
 Fixpoint check_from (i : nat) (cs : list case) : list (nat * nat) :=
